@@ -6,15 +6,15 @@ package main
 
 import (
 	"fmt"
-	"time"
 	"go/ast"
-	"os"
 	"go/types"
 	"math/big"
+	"os"
 	"regexp"
 	"sort"
 	"strconv"
 	"strings"
+	"time"
 
 	"golang.org/x/tools/go/ssa"
 )
@@ -56,9 +56,9 @@ func partitions(n int) [][]int {
 }
 
 type aliasPlan struct {
-	label string
-	rep   map[int]int // param index -> representative param index (itself if none)
-	elem  map[int]int // slice-of-pointers param index -> pointer param index that is one of its elements
+	label   string
+	rep     map[int]int   // param index -> representative param index (itself if none)
+	elem    map[int]int   // slice-of-pointers param index -> pointer param index that is one of its elements
 	elemIdx map[int]int64 // for fixed-length slices: the position of that element
 }
 
@@ -198,8 +198,8 @@ type splitCase struct {
 	lens    map[string]int64 // param name -> fixed length
 	assume  []string         // extra assumptions (spec text)
 	noPrune bool
-	vals    map[string]int64 // scalar parameter fixed to a value
-	nils    map[string]bool  // pointer parameter is nil in this variant
+	vals    map[string]int64  // scalar parameter fixed to a value
+	nils    map[string]bool   // pointer parameter is nil in this variant
 	dyns    map[string]string // interface parameter: "nil" | "is:<Type>" | "other:<Type>" (dynamic type is / is not *Type)
 }
 
